@@ -36,7 +36,7 @@ def maskedHex (b : B) (m : List Bool) : String :=
   String.join ((b.zip (m ++ List.replicate (b.length - m.length) true)).map fun (x, k) => if k then hexByte x else "..")
 
 /-- apply a mutation to a stream; `hl` is the header length -/
-def applyMut (mu : String) (hl : Nat) (s : B) : Option B :=
+def applyMut1 (mu : String) (hl : Nat) (s : B) : Option B :=
   let off (t : String) : Option Nat :=
     if t.startsWith "b+" then (t.drop 2).toString.toNat?.map (· + hl)
     else if t.startsWith "e-" then (t.drop 2).toString.toNat?.map (s.length - ·)
@@ -53,6 +53,10 @@ def applyMut (mu : String) (hl : Nat) (s : B) : Option B :=
       if o + w ≤ s.length then some (s.take o ++ leBytes w v ++ s.drop (o + w)) else some s
   | ["append", h] => some (s ++ unhex h.toList)
   | _ => none
+
+/-- `a+b`: one perturbation after the other -/
+def applyMut (mu : String) (hl : Nat) (s : B) : Option B :=
+  (mu.splitOn "+").foldl (fun acc one => acc.bind (applyMut1 one hl)) (some s)
 
 def doCase (st : St) (i r : Nat) (mu val : String) : String :=
   match st.types[i]?, parseVal val with
@@ -92,6 +96,9 @@ def parseCOps (s : String) : Option (List Op) :=
     | ["rx", n] => n.toNat?.map .readExact
     | ["wa", h] => some (.writeAll (unhex h.toList))
     | ["wa"] => some (.writeAll [])
+    -- `write_vectored` with no buffer, or with one: a `write` of nothing / of that buffer (both cursors)
+    | ["wv"] => some (.write [])
+    | ["wv", h] => some (.write (unhex h.toList))
     | _ => none
 
 open Eps.Cur in
@@ -175,11 +182,13 @@ def parseWSpec (spec : String) : Option Nat × Bool :=
     | _ => acc) (none, false)
 
 def wfailLine (t : Ty) (name : B) (v : Val) (spec : String) : String :=
-  let hdr := t.header H name
-  let s := t.ser H name v
-  let m := trues hdr.length ++ t.encMask v hdr.length
   if spec == "devfull" || spec == "storefull" then "wfail err -" else
   let (k, ff) := parseWSpec spec
+  -- `at=K`: K bytes (zeros) are on the stream already; the structure is written at position K
+  let atK : Nat := ((spec.splitOn ",").filterMap fun kv => match kv.splitOn "=" with | ["at", v] => v.toNat? | _ => none).headD 0
+  let hdr := t.header H name
+  let s := zeros atK ++ hdr ++ t.enc v (atK + hdr.length)
+  let m := trues (atK + hdr.length) ++ t.encMask v (atK + hdr.length)
   let kk := k.getD s.length
   let acc := s.take kk
   let r := if kk < s.length then "err" else if ff then "err" else "ok:" ++ toString s.length
